@@ -90,7 +90,7 @@ func rulesC09(c *Ctx) {
 			}
 			t, _ := g.BranchTargets(cv - 1)
 			// the branch yields a non-nil error and returns
-			okp, _ := g.MustPass(t, g.Exits, func(v int) bool {
+			okp, _ := g.MustPassIncl(t, g.Exits, func(v int) bool {
 				for _, call := range body.AllCalls(g.Node(v), false) {
 					if body.ObjOf(call.Fun) == types.Object(yieldParam) && len(call.Args) == 2 && !isNilIdent(call.Args[1]) {
 						return true
@@ -450,7 +450,7 @@ func ruleStreamNeverSilent(c *Ctx) {
 			okSend = idOK && errOK
 		}
 	}
-	okAll, _ := g.MustPass(t, g.Exits, func(v int) bool {
+	okAll, _ := g.MustPassIncl(t, g.Exits, func(v int) bool {
 		_, isSend := g.Node(v).(*ast.SendStmt)
 		return isSend
 	})
